@@ -197,8 +197,10 @@ RemoveComponent(e, T) ==
     /\ Same
 
 \* --- delete_entity ---------------------------------------------------------------------------------
+\* With "ghost" in Acts the call is also made for identifiers that own nothing (outside C05's precondition, but
+\* the world must not be left failing forever): the mark is kept until the next frame reports it once.
 DeleteDeferred(e) ==
-    /\ "delete" \in Acts /\ e \in DOMAIN rows
+    /\ "delete" \in Acts /\ (e \in DOMAIN rows \/ "ghost" \in Acts)
     /\ Commit([W0 EXCEPT !.dead = @ \cup {e}]) /\ ret' = <<"ok", 0, "-">>
     /\ PK /\ UNCHANGED <<nextAuto, enabled, selfReg, procs, pprio, pworld, bad>>
 
@@ -252,10 +254,17 @@ RunProcs(w, s, dt, stopAt) ==        \* stopAt: processor that raises (or "none"
          IF Head(s) = stopAt THEN w1 ELSE RunProcs(w1, Tail(s), dt, stopAt)
 
 DeadRows == dead \cap DOMAIN rows
+GhostMarks == dead \ DOMAIN rows
 Process(dt) ==
     /\ "process" \in Acts /\ QRoom(3)
     /\ IF ClearDeadGuards
-       THEN /\ Commit(RunProcs(ApplyDeferred(W0, dead), procs, dt, "none")) /\ ret' = <<"ok", 0, "-">>
+       THEN IF GhostMarks = {}
+            THEN /\ Commit(RunProcs(ApplyDeferred(W0, dead), procs, dt, "none")) /\ ret' = <<"ok", 0, "-">>
+            ELSE \* a mark on an identifier that never existed: KeyError, once; the mark is gone afterwards.  Which
+                 \* real deletions were applied before it was met is the iteration order: a choice.
+                 \E g \in GhostMarks : \E done \in SUBSET DeadRows :
+                     LET w == ApplyDeferred(W0, done) IN
+                     /\ Commit([w EXCEPT !.dead = @ \ {g}]) /\ ret' = <<"KeyError", 0, "-">>
        ELSE IF dead \subseteq DOMAIN rows
             THEN /\ Commit([RunProcs(ApplyDeferred(W0, dead), procs, dt, "none") EXCEPT !.dead = {}])
                  /\ ret' = <<"ok", 0, "-">>
@@ -266,7 +275,7 @@ Process(dt) ==
 
 \* a processor raises in the middle of the frame: deletions were applied, later processors do not run
 ProcessProcFault(dt, p) ==
-    /\ "fault" \in Acts /\ "process" \in Acts /\ QRoom(3) /\ ClearDeadGuards
+    /\ "fault" \in Acts /\ "process" \in Acts /\ QRoom(3) /\ ClearDeadGuards /\ GhostMarks = {}
     /\ \E i \in 1..Len(procs) : procs[i] = p
     /\ Commit(RunProcs(ApplyDeferred(W0, dead), procs, dt, p))
     /\ ret' = <<"raised", 0, "-">>
@@ -277,7 +286,7 @@ ProcessProcFault(dt, p) ==
 \* were handled before it is the iteration order: a choice.  The tables were already updated when the
 \* callback runs, the handler registration of c was not yet dropped.
 ProcessRemoveFault(dt, c) ==
-    /\ "fault" \in Acts /\ "process" \in Acts /\ enabled /\ "on_remove" \in Decl[c] /\ ClearDeadGuards
+    /\ "fault" \in Acts /\ "process" \in Acts /\ enabled /\ "on_remove" \in Decl[c] /\ ClearDeadGuards /\ GhostMarks = {}
     /\ \E e \in DeadRows : \E t \in DOMAIN rows[e] :
          /\ rows[e][t] = c
          /\ \E doneE \in SUBSET (DeadRows \ {e}) : \E doneT \in SUBSET (DOMAIN rows[e] \ {t}) :
@@ -287,6 +296,19 @@ ProcessRemoveFault(dt, c) ==
                                    !.log = Append(@, <<"on_remove", c, e>>)] IN
               Commit(w2)
     /\ ret' = <<"raised", 0, "-">>
+    /\ PK /\ UNCHANGED <<nextAuto, enabled, selfReg, procs, pprio, pworld, bad>>
+
+\* the on_remove callback of component c (being removed by the deferred deletion of its entity) deletes another
+\* entity e2 immediately - everyday game code.  Whatever the iteration order, every pending deletion is applied,
+\* e2 is gone, every component concerned hears on_remove once, and the frame completes.
+ProcessKiller(dt, c, e2) ==
+    /\ "fault" \in Acts /\ "process" \in Acts /\ enabled /\ "on_remove" \in Decl[c] /\ ClearDeadGuards /\ GhostMarks = {}
+    /\ e2 \in DOMAIN rows
+    /\ \E e \in DeadRows \ {e2} : \E t \in DOMAIN rows[e] : rows[e][t] = c
+    /\ LET w1 == ApplyDeferred(W0, dead)
+           w2 == DeleteNow(w1, e2) IN
+       Commit(RunProcs(w2, procs, dt, "none"))
+    /\ ret' = <<"ok", 0, "-">>
     /\ PK /\ UNCHANGED <<nextAuto, enabled, selfReg, procs, pprio, pworld, bad>>
 
 \* --- clear() -------------------------------------------------------------------------------------------
@@ -322,6 +344,19 @@ SetEnabled(b) ==
             ELSE /\ log' = <<>> /\ queue' = queue /\ ret' = <<"ok", 0, "-">>
     /\ UNCHANGED <<rows, index, dead, nextAuto, reg, selfReg, probeKnown, procs, pprio, pworld, bad>>
 
+\* a postponed callback raises while the queue is being released: what was delivered is not delivered again,
+\* what was not yet delivered stays pending, in order (the faulting relay is alone in its operation batch)
+SetEnabledFault(i) ==
+    /\ "toggle" \in Acts /\ "fault" \in Acts /\ ~enabled
+    /\ i \in 1..Len(queue) /\ queue[i][1] \in {"on_add", "on_remove"} /\ queue[i][2] \in Comps
+    /\ queue[i][4] /\ (IF i = Len(queue) THEN TRUE ELSE queue[i + 1][4])
+    /\ \A j \in 1..(i - 1) : ~(queue[j][1] = queue[i][1] /\ queue[j][2] = queue[i][2])
+    /\ enabled' = TRUE
+    /\ log' = Release(SubSeq(queue, 1, i), reg, <<>>)[1]
+    /\ queue' = SubSeq(queue, i + 1, Len(queue))
+    /\ ret' = <<"raised", 0, "-">>
+    /\ UNCHANGED <<rows, index, dead, nextAuto, reg, selfReg, probeKnown, procs, pprio, pworld, bad>>
+
 \* --- world.dispatch("probe", tok): an ordinary event of the world --------------------------------------
 Probe(tok) ==
     /\ "probe" \in Acts /\ QRoom(1)
@@ -344,6 +379,8 @@ Next == \/ (\E id \in Ids \cup {NoEnt}, cs \in CompSeqs : CreateEntity(id, cs))
         \/ (\E dt \in Dts : Process(dt))
         \/ (\E dt \in Dts, p \in Procs : ProcessProcFault(dt, p))
         \/ (\E dt \in Dts, c \in Comps : ProcessRemoveFault(dt, c))
+        \/ (\E dt \in Dts, c \in Comps, e2 \in Ids : ProcessKiller(dt, c, e2))
+        \/ (\E i \in 1..MaxQ : SetEnabledFault(i))
         \/ Clear
         \/ (\E b \in BOOLEAN : SetEnabled(b))
         \/ (\E tok \in {7} : Probe(tok))
@@ -378,22 +415,26 @@ RegisteredIffAttached == ("fault" \notin Acts) =>
     reg = {c \in Attached(rows) : IsHandler(c)} \cup {procs[i] : i \in {j \in 1..Len(procs) : PDecl[procs[j]] # {}}}
 WorldListensToItself == selfReg
 NoBadRelay == \A i \in 1..Len(queue) : queue[i][1] # "badrelay"
-DrainedWhenEnabled == (enabled /\ ret[1] # "KeyError") => queue = <<>>
+DrainedWhenEnabled == (enabled /\ ret[1] \notin {"KeyError", "raised"} /\ "fault" \notin Acts) => queue = <<>>
 \* every postponed on_add is for a component that is attached to that entity now or has a later on_remove queued
+\* (after a callback raised during a release the dispatcher is enabled with events still pending - C04 - and
+\* later direct callbacks overtake them: instances with the "fault" family are exempt)
 PendingConsistent ==
-    \A i \in 1..Len(queue) :
+    ("fault" \in Acts) \/ \A i \in 1..Len(queue) :
         (queue[i][1] = "on_add" /\ queue[i][2] \in Comps) =>
             \/ <<queue[i][3], queue[i][2]>> \in Owns
             \/ \E j \in (i + 1)..Len(queue) : queue[j][1] = "on_remove" /\ queue[j][2] = queue[i][2] /\ queue[j][3] = queue[i][3]
             \/ "on_remove" \notin Decl[queue[i][2]]
 
 \* C05
-ProcessNeverFails == [][(\E dt \in Dts : Process(dt)) => ret'[1] = "ok"]_vars
+ProcessNeverFails == [][(\E dt \in Dts : Process(dt)) =>
+                            IF GhostMarks = {} THEN ret'[1] = "ok"
+                            ELSE Cardinality(GhostMarks') < Cardinality(GhostMarks)]_vars
 FreedAfterProcess == [][(\E dt \in Dts : Process(dt)) /\ ret'[1] = "ok" => dead' = {} /\ dead \cap DOMAIN rows' = {}]_vars
 MarkHidesAtOnce == [][\A e \in Ids : DeleteDeferred(e) => (~EntityExists(e))' /\ rows' = rows]_vars
 \* after a faulted frame the next unfaulted frame completes and frees everything that was pending
-NoPermanentFailure == [][(ret[1] = "raised" /\ \E dt \in Dts : Process(dt)) => (ret'[1] = "ok" /\ dead' = {})]_vars
-MarksHaveRows == ClearDeadGuards => dead \subseteq DOMAIN rows
+NoPermanentFailure == [][(ret[1] = "raised" /\ GhostMarks = {} /\ \E dt \in Dts : Process(dt)) => (ret'[1] = "ok" /\ dead' = {})]_vars
+MarksHaveRows == (ClearDeadGuards /\ "ghost" \notin Acts) => dead \subseteq DOMAIN rows
 
 \* C07
 SortedStable == \A i, j \in 1..Len(procs) : i < j => pprio[procs[i]] <= pprio[procs[j]]
